@@ -347,7 +347,7 @@ def other_dyn(args):
     return _OTHER[k]
 
 
-def reader_run(sig, cd, dyn, args, length_offsets, also_register=None):
+def reader_run(sig, cd, dyn, args, length_offsets, also_register=None, handed_over=False):
     """run `return (calldataload(o1), ..., calldataload(ok))` on the real SEVM with this calldata; returns set of tuples"""
     from halmos.__main__ import mk_block, mk_solver
     from halmos.calldata import FunctionInfo
@@ -368,6 +368,12 @@ def reader_run(sig, cd, dyn, args, length_offsets, also_register=None):
     path.process_dyn_params(dyn)
     if also_register is not None:
         path.process_dyn_params(also_register)
+    if handed_over:
+        # the calldata was created on an earlier path (svm.createCalldata in setUp() or in an earlier transaction of a sequence):
+        # the executing path extends that one, as run_message() does
+        parent = path
+        path = Path(solver)
+        path.extend_path(parent)
     ex = sevm.mk_exec(code={this: code}, storage={this: sevm.mk_storagedata()}, transient_storage={this: sevm.mk_storagedata()},
                       balance=EMPTY_BALANCE, block=mk_block(), context=CallContext(message=msg), pgm=code, path=path)
     got = []
@@ -467,6 +473,17 @@ def check_signature(acc, types, config, do_reader=True):
                 acc.violation(f"candidates2:{name}:{cfgs}", f"{name} [{cfgs}]: with a second symbolic calldata registered on the same path the reader returned lengths {sorted(set(map(str, got2)))[:8]} ({len(got2)} paths), expected the product {sorted(want)[:8]} ({len(want)})", case)
                 return
             acc.count("reader_paths", len(got2))
+            # the same when the calldata was created on an earlier path that the executing path extends
+            acc.count("reader_runs")
+            try:
+                got3 = reader_run(sig, cd, dyn, args, length_offsets, handed_over=True)
+            except Exception as e:
+                acc.violation(f"reader-crash3:{name}:{cfgs}", f"{name} [{cfgs}]: reader program (calldata handed over through extend_path) raised {type(e).__name__}: {e}", case)
+                return
+            if set(got3) != want or len(got3) != len(want):
+                acc.violation(f"candidates3:{name}:{cfgs}", f"{name} [{cfgs}]: when the calldata was created on a parent path (extend_path) the reader returned lengths {sorted(set(map(str, got3)))[:8]} ({len(got3)} paths), expected the product {sorted(want)[:8]} ({len(want)})", case)
+                return
+            acc.count("reader_paths", len(got3))
     acc.state((name, cfgs))
 
 
